@@ -313,6 +313,54 @@ func workerBinary(prop, tier string) string {
 	return SimBinary()
 }
 
+// workerClass decides which binary runs worker w of a check and which parts it
+// takes. A check whose parts are all of one kind is run by one kind of worker
+// ("all"). In a mixed check the RealTime parts (component simulators whose code
+// under test starts free-running goroutines with tickers: Pebble) are run by
+// workers of the driver binary ("rt"), the others by workers of the faketime
+// simulation binary ("sim"); the workers are divided by the parts' shares.
+func workerClass(prop, tier string, w, nw int) (string, string) {
+	self := os.Args[0]
+	if p, err := os.Executable(); err == nil {
+		self = p
+	}
+	c := checks[prop]
+	rt, other := 0, 0
+	for _, p := range allParts(c, tier) {
+		sh := p.Share
+		if sh <= 0 {
+			sh = 1
+		}
+		if sc := scenarios[p.Scenario]; sc != nil && sc.RealTime {
+			rt += sh
+		} else {
+			other += sh
+		}
+	}
+	sb := SimBinary()
+	if rt == 0 || sb == self {
+		return sb, "all"
+	}
+	if other == 0 {
+		return self, "all"
+	}
+	if nw < 2 {
+		// one worker cannot serve both kinds: it runs the simulation parts
+		return sb, "sim"
+	}
+	nrt := (nw*rt + (rt+other)/2) / (rt + other)
+	if nrt < 1 {
+		nrt = 1
+	}
+	if nrt > nw-1 {
+		nrt = nw - 1
+	}
+	if w < nrt {
+		return self, "rt"
+	}
+	return sb, "sim"
+}
+
 // Main is the entry point of cmd/simcheck.
 func Main(args []string) int {
 	if len(args) < 1 {
@@ -323,7 +371,8 @@ func Main(args []string) int {
 	case "worker", "replay", "evalserver", "one", "dethash":
 		// everything that executes simulated runs is done by the simulation
 		// binary (faketime runtime); this binary only drives it
-		if sb := SimBinary(); !Faketime && sb != os.Args[0] && !realTimeOnly(args) {
+		if sb := SimBinary(); !Faketime && sb != os.Args[0] && !realTimeOnly(args) &&
+			!(args[0] == "worker" && os.Getenv("VERIF_WORKER_CLASS") == "rt") {
 			cmd := exec.Command(sb, args...)
 			cmd.Stdin, cmd.Stdout, cmd.Stderr = os.Stdin, os.Stdout, os.Stderr
 			if _, set := os.LookupEnv("GOMAXPROCS"); !set {
@@ -535,11 +584,12 @@ func parent(prop, tier string) int {
 				}
 				outFile := filepath.Join(workDir, fmt.Sprintf("w%d.json", w))
 				_ = os.Remove(outFile)
-				cmd := exec.Command(workerBinary(prop, tier), "worker", prop, tier, strconv.FormatUint(seed, 10),
+				bin, class := workerClass(prop, tier, w, nw)
+				cmd := exec.Command(bin, "worker", prop, tier, strconv.FormatUint(seed, 10),
 					strconv.Itoa(w), strconv.Itoa(nw), strconv.FormatInt(left, 10), outFile)
 				cmd.Stderr = os.Stderr
 				cmd.Stdout = os.Stderr
-				cmd.Env = append(os.Environ(), "GOMAXPROCS=1", "VERIF_START_COUNT="+startCount)
+				cmd.Env = append(os.Environ(), "GOMAXPROCS=1", "VERIF_START_COUNT="+startCount, "VERIF_WORKER_CLASS="+class)
 				cmd.SysProcAttr = &syscall.SysProcAttr{Pdeathsig: syscall.SIGKILL} // no orphans
 				err := cmd.Run()
 				var o workerOut
@@ -815,6 +865,13 @@ func worker(args []string) int {
 	}
 	memLimit := uint64(envInt("VERIF_WORKER_MEM_MB", 900)) << 20
 	doneParts := make([]bool, len(parts))
+	if class := os.Getenv("VERIF_WORKER_CLASS"); class == "rt" || class == "sim" {
+		for i, p := range parts {
+			if sc := scenarios[p.Scenario]; sc != nil && sc.RealTime != (class == "rt") {
+				doneParts[i] = true
+			}
+		}
+	}
 	sigs := map[uint64]struct{}{}
 	states := map[uint64]struct{}{}
 	write := func() {
